@@ -244,10 +244,34 @@ def check_diagram_level(ctx):
     shape.match(ctx, "R14.3", CAT + ".rsubs", ret_expr(fn.body), "rmap(lambda x: getattr(x, 'subs', lambda *_: x)(*args), data)", {}, mod=CAT, node=fn, sig="rsubs")
 
 
+def check_closures(ctx):
+    """R14.3: the function returned by lambdify can be called any number of times: it does not consume an iterator created outside it"""
+    m = ctx.model
+    n = 0
+    for c in sorted(m.classes.values(), key=lambda c: c.q):
+        if "lambdify" not in c.methods or not isinstance(c.methods["lambdify"][0], ast.FunctionDef):
+            continue
+        fn = c.methods["lambdify"][0]
+        once = {}
+        for st in fn.body:
+            if isinstance(st, ast.Assign) and len(st.targets) == 1 and isinstance(st.targets[0], ast.Name):
+                v = st.value
+                if isinstance(v, ast.GeneratorExp) or (isinstance(v, ast.Call) and ast.unparse(v.func) in ("map", "zip", "filter", "iter", "enumerate", "reversed")):
+                    once[st.targets[0].id] = ast.unparse(v)[:50]
+        used = sorted({x.id for inner_ in ast.walk(fn) if isinstance(inner_, (ast.Lambda, ast.FunctionDef)) and inner_ is not fn for x in ast.walk(inner_)
+                       if isinstance(x, ast.Name) and x.id in once})
+        n += 1
+        ctx.ob("R14.3", "%s.lambdify:reusable" % c.q, not used, found=["`%s = %s` is consumed by the first call of the returned function" % (u, once[u]) for u in used] or "the returned function rebuilds what it iterates",
+               required="calling the lambdified diagram twice gives the same result (no generator / map / zip object captured from outside)", mod=c.mod, node=fn, sig="lambdify-iterator", trivial=True)
+    return n
+
+
 def check(ctx):
     ctx.rule("R14.1", "reconstruction completeness of every reachable subs/lambdify rebuild (abstract construction + abstract execution per class)")
     ctx.rule("R14.2", "free_symbols provenance: computed from the same data the arrays read; union over boxes; numpy/sympy module choice")
     ctx.rule("R14.3", "diagram-level subs/lambdify rebuild layer by layer with the same whiskers; sums term-wise; tensors entry-wise")
+    nc = check_closures(ctx)
+    ctx.need(nc >= 6, "fewer than 6 lambdify methods scanned (%d)" % nc)
     check_rebuilds(ctx)
     check_free_symbols(ctx)
     check_diagram_level(ctx)
